@@ -666,7 +666,8 @@ func (g *genCtx) genTag(label string, inStep bool) *Val {
 		v := &Val{K: "oneof", Disc: "d"}
 		for i := 0; i < nopt; i++ {
 			s := objs[rapid.IntRange(0, len(objs)-1).Draw(t, fmt.Sprintf("%s.opt%d", label, i))]
-			v.Keys = append(v.Keys, fmt.Sprintf("o%d", i))
+			// option ids are free-form keys: some contain dots, like the node path separator
+			v.Keys = append(v.Keys, fmt.Sprintf(rapid.SampledFrom([]string{"o%d", "o%d", "v%d.0", "opt.%d", "x.y.z%d"}).Draw(t, fmt.Sprintf("%s.optkey%d", label, i)), i))
 			v.Vals = append(v.Vals, ExprVal(s.expr))
 		}
 		return v
@@ -818,6 +819,16 @@ func (g *genCtx) genForeach(c *Case, s *Step, lbl string) {
 			[]string{"key", "a"},
 			[]*Val{ExprVal(&Expr{K: "in", Field: "k"}), ExprVal(&Expr{K: "in", Field: "n"})})}},
 		Outputs: []*Output{{ID: "success", Val: MapVal([]string{"r"}, []*Val{ExprVal(&Expr{K: "out", Step: "w", Stage: "outputs", Output: "success"})})}},
+	}
+	// sub-workflows of sibling loops differ in the shape of their success output
+	switch rapid.IntRange(0, 2).Draw(t, lbl+".sub-shape") {
+	case 1:
+		sub.Outputs[0].Val = MapVal([]string{"r"}, []*Val{ExprVal(&Expr{K: "out", Step: "w", Stage: "outputs", Output: "success", Path: []string{"v"}})})
+		g.label("foreach:sub-output-shape-int")
+	case 2:
+		sub.Outputs[0].Val = MapVal([]string{"r", "extra"}, []*Val{ExprVal(&Expr{K: "out", Step: "w", Stage: "outputs", Output: "success"}),
+			ExprVal(&Expr{K: "out", Step: "w", Stage: "outputs", Output: "success", Path: []string{"s"}})})
+		g.label("foreach:sub-output-shape-extra-field")
 	}
 	if g.p.ForeachFailures && rapid.Bool().Draw(t, lbl+".sub-error-output?") {
 		// the sub-workflow declares a second, non-success output: an item that ends in it failed
